@@ -5,7 +5,7 @@ import vlib
 from vlib import Violation, qc, qc_mat, qc_vec, coq_list, qlit
 
 ID = "C01"
-GEN_UNITS = ["GridT", "GridCoords"]
+GEN_UNITS = ["GridT", "GridCoords", "GridCtor"]
 PROPS_FILE = "Props/C01.v"
 PROPS_MOD = "Props.C01"
 COQ_TARGETS = ["Props/C01.vo", "Base/QcCmp.vo"]
@@ -167,7 +167,9 @@ def explains(broken_item, found):
         return "round" in keys
     if "cube" in b:
         return "cube" in keys
-    return any(k in keys for k in ("inverse", "compose", "vectors", "matrix", "anchor", "transform"))
+    # anything else (GridT translator unit, theorems about the generated closed forms, case files that no longer
+    # evaluate) is explained by any NEW concrete failing input of the grid maps
+    return any(k in keys for k in ("inverse", "compose", "vectors", "matrix", "anchor", "transform", "helper", "points", "functional", "origin"))
 
 
 def replay(ctx, data):
